@@ -236,8 +236,13 @@ class ClassicallyControlledOperation(raw_types.Operation):
             raise ValueError(
                 'QASM 2.0 does not support multiple conditions. Consider exporting with QASM 3.0.'
             )
-        subop_qasm = protocols.qasm(self._sub_operation, args=args)
+        subop_qasm = protocols.qasm(self._sub_operation, args=args, default=None)
+        if subop_qasm is None:
+            return None  # fall back to decomposing the sub operation
         if not self._conditions:
             return subop_qasm
+        if subop_qasm.count(';') != 1:
+            # `if (...)` guards exactly one statement; decompose into single-statement operations.
+            return None
         condition_qasm = " && ".join(protocols.qasm(c, args=args) for c in self._conditions)
         return f'if ({condition_qasm}) {subop_qasm}'
